@@ -46,7 +46,7 @@ type Adapter interface {
 	Call(fn string, m int, o Opts) string // returns nil, closed, err:..
 	Par(msgs [][]int) []string            // concurrent senders, one goroutine per queue; returns in queue order, flattened
 	Deliveries() []Dlv                    // deliveries since the previous call of Deliveries, after the driver is quiescent
-	Teardown()
+	Teardown() string
 }
 
 const Watchdog = 10 * time.Second
